@@ -42,7 +42,8 @@ RICH_XSD = '''<xs:schema xmlns:xs="http://www.w3.org/2001/XMLSchema" targetNames
   <xs:attribute name="k" type="t:small"/><xs:anyAttribute namespace="##other" processContents="lax"/>
  </xs:complexType>
  <xs:element name="root">
-  <xs:complexType><xs:sequence><xs:element name="item" type="t:item" maxOccurs="unbounded"/></xs:sequence></xs:complexType>
+  <xs:complexType><xs:sequence><xs:element name="item" type="t:item" maxOccurs="unbounded">
+   <xs:unique name="U"><xs:selector xpath="t:sub"/><xs:field xpath="t:n"/></xs:unique></xs:element></xs:sequence></xs:complexType>
   <xs:key name="K"><xs:selector xpath="t:item"/><xs:field xpath="t:n"/></xs:key>
   <xs:keyref name="R" refer="t:K"><xs:selector xpath="t:item/t:sub"/><xs:field xpath="t:n"/></xs:keyref>
  </xs:element>
@@ -54,6 +55,9 @@ BASE_DOCS = [
     '<t:f>1.5E3</t:f><t:b64>QUJD</t:b64><t:sub ref="a1"><t:n>1</t:n></t:sub></t:item><t:item><t:n>2</t:n></t:item></t:root>',
     '<t:root xmlns:t="urn:c11" xmlns:o="urn:o"><t:item><t:n>7</t:n><t:sub><t:n>7</t:n><t:sub><t:n>7</t:n></t:sub></t:sub>'
     '<o:x a="1"><o:y/></o:x></t:item></t:root>',
+    # the second item violates the unique constraint U declared on the intermediate element
+    '<t:root xmlns:t="urn:c11"><t:item><t:n>1</t:n><t:sub><t:n>1</t:n></t:sub><t:sub><t:n>2</t:n></t:sub></t:item>'
+    '<t:item><t:n>2</t:n><t:sub><t:n>1</t:n></t:sub><t:sub><t:n>1</t:n></t:sub></t:item></t:root>',
 ]
 LEX_POOL = ['99999999999999999999999999999999', '-0', '1e400', '٣', '１２', '1_0', ' ', '', 'NaN', 'INF', '0000-00-00',
             '99999999999999999999-01-01T00:00:00', 'P99999999999999999999Y', '2020-13-45', ':', 'a:b:c', 'x:', 'p::q',
